@@ -72,4 +72,8 @@ def parseWithPrefix (T : Tables) (pfxs : List Str) (s : Str) : Except Err (Nat Ã
       | .error e => .error e
       | .ok m => .ok (i, m)
 
+/-- the assignment read off a metric map: the stated token, or the version's Not Defined token for an
+    absent metric (this is what the specifications' equations are applied to) -/
+def assignment (nd : Str) (m : MMap) : Str â†’ Str := fun k => (lookup k m).getD nd
+
 end Cvss.Model
